@@ -135,12 +135,16 @@ Definition mconst_meets (r : option mrule) : Prop :=
 Definition fold_first_R (op : mbin) (acc_left : bool) (x : R) (l : list R) : R :=
   fold_left (fun acc v => if acc_left then MR_bin op acc v else MR_bin op v acc) l x.
 
-Definition mfold_meets (r : option mrule) (f : R -> R -> R) : Prop :=
+(* P (values of the arguments) (result) *)
+Definition mfold_meets (r : option mrule) (P : list R -> R -> Prop) : Prop :=
   match r with
-  | Some (MRFoldFirst op acc_left) =>
-      forall x l, fold_first_R op acc_left x l = fold_right f x (rev l) /\
-                  (forall a b, f a b = f b a) /\ (forall a b c, f a (f b c) = f (f a b) c)
+  | Some (MRFoldFirst op acc_left) => forall x l, P (x :: l) (fold_first_R op acc_left x l)
   | _ => False
   end.
+
+Definition is_sum (l : list R) (r : R) : Prop := r = fold_right Rplus 0 l.
+Definition is_prod (l : list R) (r : R) : Prop := r = fold_right Rmult 1 l.
+Definition is_max (l : list R) (r : R) : Prop := In r l /\ forall v, In v l -> v <= r.
+Definition is_min (l : list R) (r : R) : Prop := In r l /\ forall v, In v l -> r <= v.
 
 End MIDEAL.
